@@ -5,11 +5,11 @@ OUT=/var/tmp/seedconfirm; mkdir -p $OUT
 CLEAN=/tmp/mut/S-clean
 if [ ! -x $CLEAN/aldor/aldor/src/aldor ]; then /tmp/mutkit/setup.sh S-clean >/dev/null; /tmp/mutkit/build.sh S-clean runtime >/dev/null 2>&1; fi
 for P in "$@"; do
- for D in /tmp/mut/M-$P-out/patch*.diff; do
+ for D in /tmp/mut/${MUTPREFIX:-M}-$P-out/patch*.diff; do
   [ -f "$D" ] || continue
-  N=$(basename $D .diff); SUF=${N#patch}; ID=$P-$N; W=/tmp/mut/S-$ID
+  N=$(basename $D .diff); SUF=${N#patch}; ID=${MUTPREFIX:-M}-$P-$N; W=/tmp/mut/S-$ID
   [ -s $OUT/$ID.txt ] && continue
-  DEMO=/tmp/mut/M-$P-out/demo$SUF.sh
+  DEMO=/tmp/mut/${MUTPREFIX:-M}-$P-out/demo$SUF.sh
   {
    echo "id=$ID patch=$D demo=$DEMO head=$(git -C /repo rev-parse --short HEAD)"
    /tmp/mutkit/setup.sh S-$ID >/dev/null 2>&1
